@@ -65,6 +65,11 @@ type knownClass struct {
 
 type fnInfo struct {
 	idx    map[ssa.Value]int
+	name   string
+	intr   intrinsicFn
+	pure   bool
+	stub   bool
+	repo   bool
 	nregs  int
 	defBlock []*ssa.BasicBlock // per register: defining block (nil for parameters and free variables)
 	ipdom  map[*ssa.BasicBlock]*ssa.BasicBlock
@@ -76,7 +81,18 @@ func getFnInfo(fn *ssa.Function) *fnInfo {
 	if v, ok := fnInfoCache.Load(fn); ok {
 		return v.(*fnInfo)
 	}
-	fi := &fnInfo{idx: map[ssa.Value]int{}}
+	fi := &fnInfo{idx: map[ssa.Value]int{}, name: fn.String()}
+	if in, ok := intrinsics[fi.name]; ok {
+		fi.intr, fi.pure = in, pureIntrinsics[fi.name]
+	} else if o := fn.Origin(); o != nil {
+		if in, ok := intrinsics[o.String()]; ok {
+			fi.intr = in
+		}
+	}
+	if fn.Pkg != nil {
+		fi.stub = isStubPkg(fn.Pkg.Pkg.Path())
+		fi.repo = strings.HasPrefix(fn.Pkg.Pkg.Path(), "rcproxy/")
+	}
 	n := 0
 	for _, p := range fn.Params {
 		fi.idx[p] = n
@@ -188,6 +204,11 @@ func computeIPDom(fn *ssa.Function) map[*ssa.BasicBlock]*ssa.BasicBlock {
 
 // ---------- executor ----------
 
+type methodKey struct {
+	t types.Type
+	m *types.Func
+}
+
 type specFrame struct {
 	writes map[*Cell]Value
 	order  []*Cell
@@ -211,7 +232,7 @@ type Exec struct {
 	globals  map[*ssa.Global]*Cell
 	inited   map[*ssa.Package]bool
 	strCache map[string]*StrV
-	methods  map[string]*ssa.Function
+	methods  map[methodKey]*ssa.Function
 	typeCache map[string]types.Type
 
 	prefix []Decision
@@ -434,7 +455,7 @@ func (e *Exec) concretiseN(t *Term, limit int) int64 {
 		models = append(models, m)
 		block = e.tf.And(block, e.tf.Not(e.tf.Cmp(OEq, t, e.tf.Const(int(t.W), v))))
 		if len(vals) > limit {
-			panic(pathEnd{"bound", fmt.Sprintf("concretise>%d values", limit)})
+			panic(pathEnd{"bound", fmt.Sprintf("concretise>%d values @ %s", limit, e.where())})
 		}
 	}
 	if len(vals) == 0 {
@@ -657,7 +678,7 @@ const maxDepth = 200
 
 func (e *Exec) call(fn *ssa.Function, args []Value) Value {
 	if len(e.cfg.Redirect) > 0 {
-		if to, ok := e.cfg.Redirect[fn.String()]; ok {
+		if to, ok := e.cfg.Redirect[getFnInfo(fn).name]; ok {
 			i := strings.LastIndex(to, ".")
 			pkg := e.prog.ImportedPackage(to[:i])
 			if pkg == nil || pkg.Func(to[i+1:]) == nil {
@@ -667,11 +688,18 @@ func (e *Exec) call(fn *ssa.Function, args []Value) Value {
 			fn = pkg.Func(to[i+1:])
 		}
 	}
-	if r, ok := e.tryIntrinsic(fn, args); ok {
-		return r
+	fi := getFnInfo(fn)
+	if fi.intr != nil {
+		if len(e.spec) > 0 && !fi.pure {
+			panic(specAbort{"intrinsic"})
+		}
+		return fi.intr(e, fn, args)
 	}
-	if fn.Pkg != nil && isStubPkg(fn.Pkg.Pkg.Path()) {
-		return e.stubResult(fn.Signature, fn.String())
+	if fi.repo && fn.Pkg.Pkg.Path() == "rcproxy/verifrt" {
+		e.unsupported("verifrt function without intrinsic: %s", fi.name)
+	}
+	if fi.stub {
+		return e.stubResult(fn.Signature, fi.name)
 	}
 	if fn.Blocks == nil {
 		if o := fn.Origin(); o != nil && o.Blocks != nil {
@@ -686,12 +714,10 @@ func (e *Exec) call(fn *ssa.Function, args []Value) Value {
 	if e.depth > maxDepth {
 		panic(pathEnd{"bound", "call depth"})
 	}
-	name := fn.String()
-	e.stack = append(e.stack, name)
-	if fn.Pkg != nil && strings.HasPrefix(fn.Pkg.Pkg.Path(), "rcproxy/") {
-		e.fnsEntered[name] = true
+	e.stack = append(e.stack, fi.name)
+	if fi.repo {
+		e.fnsEntered[fi.name] = true
 	}
-	fi := getFnInfo(fn)
 	f := &Frame{fn: fn, fi: fi, regs: make([]Value, fi.nregs)}
 	for i := range fn.Params {
 		f.regs[i] = args[i]
@@ -720,11 +746,11 @@ func (e *Exec) callClosure(fv *FuncV, args []Value) Value {
 	if e.depth > maxDepth {
 		panic(pathEnd{"bound", "call depth"})
 	}
-	e.stack = append(e.stack, fn.String())
-	if fn.Pkg != nil && strings.HasPrefix(fn.Pkg.Pkg.Path(), "rcproxy/") {
-		e.fnsEntered[fn.String()] = true
-	}
 	fi := getFnInfo(fn)
+	e.stack = append(e.stack, fi.name)
+	if fi.repo {
+		e.fnsEntered[fi.name] = true
+	}
 	f := &Frame{fn: fn, fi: fi, regs: make([]Value, fi.nregs)}
 	for i := range fn.Params {
 		f.regs[i] = args[i]
@@ -1039,7 +1065,7 @@ func (e *Exec) invoke(recv Value, m *types.Func, args []Value) Value {
 		if r.T == nil {
 			e.goPanic("invalid memory address or nil pointer dereference (method call on nil interface)")
 		}
-		key := r.T.String() + "|" + m.Name()
+		key := methodKey{r.T, m}
 		fn, ok := e.methods[key]
 		if !ok {
 			fn = e.prog.LookupMethod(r.T, m.Pkg(), m.Name())
